@@ -143,7 +143,7 @@ class Spec(PropSpec):
         n = 220 if ctx.tier == "quick" else 2500
         if ctx.escalate:
             n *= 2
-        return [F.gen_hold_script(ctx.rng) for _ in range(n)]
+        return [F.gen_hold_script(ctx.rng) for _ in range(n)] + [F.gen_tcp_script(ctx.rng, "hold") for _ in range(n // 5)]
 
     def to_model(self, case, obs):
         return F.to_model(case, obs)
@@ -154,9 +154,13 @@ class Spec(PropSpec):
     def oracle(self, case, obs):
         if obs.get("panic"):
             return []
+        if case["cfg"].get("tcp"):
+            return F.tcp_oracle(case, obs, "hold")
         return c08_oracle(case, obs)
 
     def nontrivial(self, case, obs):
+        if case["cfg"].get("tcp"):
+            return len(obs.get("tcp_recv", [])) > 0
         return c08_nontrivial(case, obs)
 
     def signature(self, case):
